@@ -17,7 +17,8 @@ RULE = ("case = one configuration given by its defining data (centres, radii, tw
         "tangencies through Pythagorean directions / integer centre distances / axis-parallel Line::new and their nearest lattice "
         "neighbours (kind additionally decided in i128 by the harness); random lattice; real-valued configurations up to 1e3 with "
         "defining points >= 1.5 apart; constructed tangencies / border points / near-parallel lines at arbitrary positions and rotations "
-        "swept through the tolerance band (offsets 0, 1e-13 ... 0.1 on both sides); a small out-of-domain stream (S = any). "
+        "swept through the tolerance band (offsets 0, 1e-13 ... 0.1 on both sides); crossing circles with radius ratio up to 1e4 close "
+        "to inner/outer tangency (offsets also scaled by d/s, the amplification of defect F9); a small out-of-domain stream (S = any). "
         "Spec side: exact rational arithmetic on the bit patterns: kind required when the configuration is >= 1e-8 (10 x the 1e-9 "
         "tolerance) from a boundary between kinds or exactly tangent / exactly on the border, `any` inside the band; every returned "
         "point within 1e-7 of both primitives (harness: f64 against the defining data; driver: exactly over the rationals). "
@@ -42,8 +43,9 @@ MANIFEST = {
              "and two distinct common points; intersect_cc: swap by radius, Same, None outside/inside (no common point), TouchInside / "
              "TouchOutside points on the larger circle and within eps of the smaller, radical-line identity, points of the Intersect "
              "branch exactly on both circles; intersect_ll: returned point on both lines, parallel <=> |cp| < eps; Circle::position "
-             "<=> sign of (|p-c|-r)/r against eps. The same model, instantiated with Float, is compared bit for bit with the crate on "
-             "every check."),
+             "<=> sign of (|p-c|-r)/r against eps. The executable exact-rational specification the driver prints as `S` is proved sound "
+             "against the real model (specKind*_sound, specPosition_sound, specContains_sound, nearCircle_iff, nearLine_iff). The same "
+             "model, instantiated with Float, is compared bit for bit with the crate on every check."),
     "note": ("PARTIAL: proved in exact real arithmetic only. The 1e-7 bound under IEEE rounding and the behaviour inside the EPS band are "
              "TESTED, not proved (differential run: lattice configurations decided exactly in integer arithmetic, real-valued "
              "configurations decided exactly over the rationals from the f64 bit patterns, constructed tangencies swept through the band). "
